@@ -139,6 +139,26 @@ def fn_nd(dim, a, b):
     return lambda p: p[0] * p[1] + math.sin(a * p[2]) + 0.5 * b
 
 
+def _subtri_order_differs(a, b, cx):
+    """mechanism detector: some simplex holds, in both learners, a sub-triangulation over the SAME (scaled) vertex set whose pending
+    vertices were inserted in a DIFFERENT order (LearnerND._update_losses re-inserts pending points while iterating a set of float
+    tuples, whose order follows the hashes of the coordinates and so depends on the scale)"""
+    try:
+        for sx, sa in a._subtriangulations.items():
+            sb = b._subtriangulations.get(sx)
+            if sb is None:
+                continue
+            va = [tuple(float(cx * x) for x in v) for v in sa.vertices]
+            vb = [tuple(float(x) for x in v) for v in sb.vertices]
+            common = set(va) & set(vb)   # (the point just chosen differs: it is the failure itself)
+            ra, rb = [v for v in va if v in common], [v for v in vb if v in common]
+            if ra != rb and len(common) >= len(va) - 1:
+                return True
+    except Exception:  # noqa: BLE001
+        pass
+    return False
+
+
 def lnd_case(arg):
     seed, pow2 = arg
     warnings.simplefilter("ignore")
@@ -186,6 +206,10 @@ def lnd_case(arg):
                         # the same points in another order: simplices of (mathematically) equal loss, the tie is broken by
                         # last-bit differences of the losses
                         res["ulp_level"] = True
+                    if pow2 and not res["ulp_level"] and eq(ia, ib) and _subtri_order_differs(a, b, cx):
+                        # equal priorities (the improvements agree bit for bit), the same (simplex, sub-simplex) INDEX entry popped,
+                        # but the indices name different pending vertices in the two learners
+                        res["pending_order"] = True
                     return fail("points", f"ask({n}): original {pa} but rescaled learner chose {pb}")
                 if not eq(ia, ib):
                     res["ulp_level"] = eq_close(ia, ib, 1e-12, 0.0)
@@ -233,6 +257,8 @@ def run(ctx):
         elif r["fail"]:
             cl, det = r["fail"]
             sig = f"C12.lnd_{cl}"
+            if r.get("pending_order"):
+                sig = "C12.lnd:tie_broken_by_pending_set_order"
             if r.get("ulp_level"):
                 sig = "C12.lnd:ulp_level_difference"
             if r["dim"] * math.log(r["cx"]) < -45:
